@@ -559,6 +559,19 @@ theorem updater_registers_link_rows :
     UpdaterC02.DD.linkRegs.map (fun r => r.1) = RowsC02.Default.rows.map (fun r => r.name) := by
   refine ⟨?_, ?_, ?_, ?_⟩ <;> decide +kernel
 
+/-- **parameters are built from the CURRENT attributes**: the attributes each parameter Definition's `build` really reads (recorded
+at run time) are exactly the documented ones (`setting`, not `initial_setting`, for the TCV loss coefficient and the valve
+setting), and each of them is registered with the ModelUpdater for that Definition on some zoo link — so a control that changes a
+valve's setting mid-run rebuilds `valve_setting` and `tcv_resistance` from the new value -/
+theorem params_read_current_attributes :
+    (UpdaterC02.paramReads.all fun r => r.2.isPerm (paramAttrs r.1) && !r.2.isEmpty) = true ∧
+    UpdaterC02.paramReads.map (fun r => r.1) =
+      ["hw_resistance_param", "minor_loss_param", "tcv_resistance_param", "pump_power_param", "valve_setting_param"] ∧
+    (UpdaterC02.paramReads.all fun r => r.2.all fun a =>
+      UpdaterC02.DD.linkRegs.any (fun l => l.2.2.contains (a, r.1)) &&
+      UpdaterC02.PDD.linkRegs.any (fun l => l.2.2.contains (a, r.1))) = true := by
+  refine ⟨?_, ?_, ?_⟩ <;> decide +kernel
+
 theorem changedAttrs_nil {a b : ShapeKey} (h : changedAttrs a b = []) : a = b := by
   unfold changedAttrs at h
   cases a; cases b
